@@ -322,6 +322,23 @@ func (s *LinearState) deleteDependencies(ctx *Context, id string) error {
 		}
 	}
 
+	// A property of the id that was written as a fact
+	// ({"id":id,"!prop":val}) doesn't have to say 'deleteWith' (as
+	// SetProp does), but it goes with its target just the same.
+	srs, err = s.search(ctx, Map{"id": id}, false)
+	if nil != err {
+		return err
+	}
+	for _, sr := range srs.Found {
+		rf, have := s.Facts[sr.Id]
+		if !have || sr.Id == id || !propertyOf(rf.M, id) {
+			continue
+		}
+		if _, err := s.rem(ctx, sr.Id, false); nil != err {
+			return err
+		}
+	}
+
 	return nil
 }
 
